@@ -459,6 +459,7 @@ def execute(case: dict) -> dict:  # noqa: C901, PLR0912, PLR0915
                 walkers[name] = node.call(RandomWalk, node.ov, reset_chance=int(o["reset_chance"]))
         groups = [names] if o["concurrent"] else [[n] for n in names]
         for grp in groups:
+            last_try = {n: loop.time() for n in grp}
             for _tick in range(60):
                 todo = [n for n in grp if available(topo_box[0].nodes[n])]
                 if not todo:
@@ -468,7 +469,17 @@ def execute(case: dict) -> dict:  # noqa: C901, PLR0912, PLR0915
                     before = set(walkers[n].intro_timeouts)
                     node.call(walkers[n].take_step)
                     world.probe("randomwalk_steps")
-                    attempted.setdefault(n, set()).update(set(walkers[n].intro_timeouts) - before)
+                    new = set(walkers[n].intro_timeouts) - before
+                    attempted.setdefault(n, set()).update(new)
+                    if new:
+                        last_try[n] = loop.time()
+                    elif loop.time() - last_try[n] > 15.0 and not retry:
+                        # the stock walker (window of 5 attempts, each forgotten after 3 s) is ticked twice a second, has walkable
+                        # addresses it never tried, and has not made a contact attempt for 15 s: the introduced peer is never contacted
+                        c.violate("reachability", "walker_stopped_making_contact_attempts",
+                                  f"{n}'s RandomWalk made no attempt for {loop.time() - last_try[n]:.1f} s while {len(available(node))} "
+                                  f"walkable addresses were never tried ({len(walkers[n].intro_timeouts)} attempts 'in flight')")
+                        last_try[n] = loop.time() + 1e9
                 await quiesce()
                 await asyncio.sleep(0.5)
         # whatever the walker did not get to (window full, reset to the tracker): plain walk_to
